@@ -1,0 +1,12 @@
+//! Verification door.
+//!
+//! Compiled only with the `verif_hooks` cargo feature (off by default). It gives an
+//! external monitoring harness access to crate-private components through plain-data
+//! wrappers and mirror traits. It contains no logic of its own: every function calls
+//! straight into the real implementation, so a change in the implementation is executed
+//! by the harness, not bypassed.
+
+pub mod pipes;
+pub mod pure;
+pub mod ctx;
+pub mod net;
